@@ -165,10 +165,12 @@ def corrupted_controls(obs, rnd, n):
         o = c["outs"][0]
         kind = len(out) % 3
         u = [k for k in o["dir"] if k.startswith("u")][0]
+        if kind != 0 and any(v != "absent" and not k.startswith("m") for k, v in c["des"].items()):
+            continue      # argument-check path: the statement demands nothing but "unmanaged untouched"
         if kind == 0:     # an unmanaged entry was touched
             o["dir"][u] = "none" if o["dir"][u] != "none" else "f:a:644"
         elif kind == 1:   # success outcome whose changed list lost/gained an element
-            if o["err"] or any(v != "absent" and not k.startswith("m") for k, v in c["des"].items()):
+            if o["err"]:
                 continue
             o["changed"] = o["changed"][1:] if o["changed"] else ["m1"]
         else:             # a failed write that leaves a managed file behind
